@@ -4,6 +4,7 @@ import (
 	"encoding/json"
 	"fmt"
 	"math"
+	"math/big"
 	"sort"
 	"strconv"
 	"strings"
@@ -226,6 +227,54 @@ func genC13(tier, out string, sum *Summary) {
 			sum.direct("input-modified", "sort_by(@, &k)", arr, "the input array was modified")
 		}
 	}
+	// numbers beyond the range of the decimal format among ordinary ones: whatever the call answers, it never
+	// returns an array that is out of numeric order, and it answers like the model
+	ratOf := func(v any) *big.Rat {
+		if n, ok := v.(json.Number); ok {
+			if r, ok := new(big.Rat).SetString(string(n)); ok {
+				return r
+			}
+		}
+		return nil
+	}
+	for _, txt := range []string{`[5, 1e7000, -3]`, `[1e7000, 2e7000]`, `[2e7000, 1e7000]`, `[-1e7000, 0, 1]`, `[1, -1e7000]`, `[3, 2, 1e7000, 1]`, `[1e7000]`, `[1e6144, 1e7000, 9e6144]`, `[9e6144, 1e7000, 1e6144]`, `[-1e7000, -2e7000]`} {
+		keys := jsonDoc(txt).([]any)
+		arr := make([]any, len(keys))
+		for j, k := range keys {
+			arr[j] = map[string]any{"k": k, "i": json.Number(strconv.Itoa(j))}
+		}
+		for _, q := range []struct {
+			e   string
+			doc any
+		}{{"sort(@)", keys}, {"sort_by(@, &k)[*].k", arr}, {"max(@)", keys}, {"min(@)", keys}, {"max_by(@, &k).k", arr}, {"min_by(@, &k).k", arr}, {"sort(@)[0]", keys}, {"reverse(sort(@))", keys}} {
+			o := search(q.e, q.doc)
+			emit(q.e, q.doc, o)
+			sum.count("beyond-range/" + o.Kind)
+			if o.Kind != "val" {
+				continue
+			}
+			if res, ok := o.Value.([]any); ok && !strings.HasPrefix(q.e, "reverse") {
+				for j := 1; j < len(res); j++ {
+					a, b := ratOf(res[j-1]), ratOf(res[j])
+					if a != nil && b != nil && a.Cmp(b) > 0 {
+						sum.direct("sort", q.e, q.doc, "result is not ordered by value: "+toJSON(res))
+						break
+					}
+				}
+			} else if r := ratOf(o.Value); r != nil {
+				for _, k := range keys {
+					kr := ratOf(k)
+					if kr == nil {
+						continue
+					}
+					if (strings.HasPrefix(q.e, "max") && kr.Cmp(r) > 0) || (strings.HasPrefix(q.e, "min") && kr.Cmp(r) < 0) || (strings.HasPrefix(q.e, "sort(@)[0]") && kr.Cmp(r) < 0) {
+						sum.direct("extremum", q.e, q.doc, fmt.Sprintf("%s is not extremal: %s beats it", toJSON(o.Value), toJSON(k)))
+						break
+					}
+				}
+			}
+		}
+	}
 	sh.Flush()
 	sum.Cases = id
 	sum.Shards = sh.files
@@ -327,6 +376,11 @@ func genC16(tier, out string, sum *Summary) {
 		if !(o.Kind == "val" && sameValue(o.Value, want, false) && (want == nil || fmt.Sprintf("%T", want) != "string" || o.Value == want)) {
 			sum.direct(what, expr, doc, "expected "+toJSON(want)+", got "+describe(o))
 		}
+		if o.Kind == "val" {
+			if t, bad := badNumberIn(o.Value); bad {
+				sum.direct(what, expr, doc, fmt.Sprintf("the result holds the number %q, which is not the text of a JSON number", t))
+			}
+		}
 		distinct[what+"|"+expr] = true
 		sh.Add(fmt.Sprintf("BC %d %s %s false %s", id, hx(expr), coqValue(doc), coqObs(o)))
 		sid := strconv.Itoa(id)
@@ -371,6 +425,35 @@ func genC16(tier, out string, sum *Summary) {
 			run(`"A😀é"`, doc, json.Number("7"), "unicode-escape")
 			run("`\"\\u0041\\ud83d\\ude00\\u00e9\"`", nil, "A😀é", "unicode-escape")
 		}
+	}
+	// numbers between backticks in every spelling, bare and padded with the white space JSON allows on either
+	// side, alone and inside containers: the value, and the digits as to_string shows them
+	for _, num := range []string{"0", "-0", "1", "-1", "7", "10", "1.0", "1.50", "-0.10e+2", "1e2", "1E-2", "15e-1", "0.000", "123456789012345678901234567890.5", "1e400", "-2.5e-3", "9223372036854775808"} {
+		for _, pre := range []string{"", " ", "\n", "\t\r "} {
+			for _, post := range []string{"", " ", "\n", " \t\r\n"} {
+				run("`"+pre+num+post+"`", nil, json.Number(num), "json-number-padded")
+				run("to_string(`"+pre+num+post+"`)", nil, num, "json-number-padded")
+				if pre == "" || post == "" {
+					run("`["+pre+num+post+","+pre+num+post+"]`", nil, []any{json.Number(num), json.Number(num)}, "json-number-padded")
+					run("`{\"k\":"+pre+num+post+"}`.k", nil, json.Number(num), "json-number-padded")
+				}
+			}
+		}
+	}
+	// runs of backslashes and quotes in raw strings: pairs collapse from the left, one at a time
+	for _, body := range []string{`\\\\`, `\\\\\\`, `\\\\\\\\`, `\\\'`, `\\\\\'`, `\'\\`, `\'\'`, `\\\'\\`, `\\\\\\\'`, `\\\\\\d+`, `\\\\server\\share`, `a\\\\\\\\b`, `\\\\\\\\\\`, `\\x\\\\`, `\\\\\\\'\\\\`} {
+		// decode as the grammar prescribes: \' is a quote, \\ is a backslash, any other backslash stays
+		var want strings.Builder
+		for i := 0; i < len(body); i++ {
+			if body[i] == '\\' && i+1 < len(body) && (body[i+1] == '\'' || body[i+1] == '\\') {
+				want.WriteByte(body[i+1])
+				i++
+				continue
+			}
+			want.WriteByte(body[i])
+		}
+		run("'"+body+"'", nil, want.String(), "raw-escape-runs")
+		run("['"+body+"', '"+body+"'][1]", map[string]any{}, want.String(), "raw-escape-runs")
 	}
 	sh.Flush()
 	sum.Cases = id
